@@ -203,6 +203,35 @@ func (c *Ctx) ruleEveryInteraction() {
 					}
 					return true
 				})
+				// the body of the closure may have been moved into a helper of the package: the closure calls it, and the
+				// helper is judged in its place (the closure's own early returns are still judged at the closure)
+				var scope ast.Node = fl.Body
+				anchor := token.NoPos
+				var helper *Fn
+				if assign == nil {
+					ast.Inspect(fl.Body, func(n ast.Node) bool {
+						call, ok := n.(*ast.CallExpr)
+						if !ok || helper != nil {
+							return true
+						}
+						h := c.fnOf(callee(pk, call))
+						if h == nil || h.Pkg != pk {
+							return true
+						}
+						ast.Inspect(h.Decl.Body, func(m ast.Node) bool {
+							if hc, ok := m.(*ast.CallExpr); ok {
+								if cal := callee(pk, hc); cal != nil && cal.Name() == "assignOperation" {
+									assign, helper, anchor, scope = hc, h, call.Pos(), h.Decl.Body
+								}
+							}
+							return true
+						})
+						return true
+					})
+				}
+				if assign != nil && anchor == token.NoPos {
+					anchor = assign.Pos()
+				}
 				switch {
 				case assign == nil:
 					why = "the closure never calls assignOperation"
@@ -219,7 +248,7 @@ func (c *Ctx) ruleEveryInteraction() {
 						if ix, isIx := ast.Unparen(sel.X).(*ast.IndexExpr); isIx {
 							if id, isId := ast.Unparen(ix.Index).(*ast.Ident); isId {
 								obj := pk.TypesInfo.Uses[id]
-								ast.Inspect(fl.Body, func(n ast.Node) bool {
+								ast.Inspect(scope, func(n ast.Node) bool {
 									if as, isAs := n.(*ast.AssignStmt); isAs && len(as.Lhs) == 1 && len(as.Rhs) == 1 {
 										if lid, isL := as.Lhs[0].(*ast.Ident); isL && pk.TypesInfo.Defs[lid] == obj {
 											if exprString(as.Rhs[0]) == iName+".Path().String()" {
@@ -276,13 +305,22 @@ func (c *Ctx) ruleEveryInteraction() {
 						return (be.Op == token.EQL && !trueEdge) || (be.Op == token.NEQ && trueEdge)
 					}
 					ast.Inspect(fl.Body, func(n ast.Node) bool {
-						if ret, isRet := n.(*ast.ReturnStmt); isRet && ret.End() < assign.Pos() && len(ret.Results) == 1 && isNil(pk, ret.Results[0]) {
+						if ret, isRet := n.(*ast.ReturnStmt); isRet && ret.End() < anchor && len(ret.Results) == 1 && isNil(pk, ret.Results[0]) {
 							if !lcf.establishedAt(ret, notHTTP, nil) {
 								skip = true
 							}
 						}
 						return true
 					})
+					if helper != nil {
+						// inside the helper nothing may return success before the operation is assigned
+						ast.Inspect(helper.Decl.Body, func(n ast.Node) bool {
+							if ret, isRet := n.(*ast.ReturnStmt); isRet && ret.End() < assign.Pos() && len(ret.Results) == 1 && isNil(pk, ret.Results[0]) {
+								skip = true
+							}
+							return true
+						})
+					}
 					switch {
 					case !methOK:
 						why = "the operation is not assigned under the interaction's own HttpMethod"
